@@ -160,6 +160,20 @@ func (s *Sched) pick() *G {
 	if len(r) == 1 {
 		return r[0]
 	}
+	if s.in.spec == nil || !s.in.spec.SchedForks {
+		// deterministic policy: round-robin after the current goroutine (select outcomes and
+		// harness choices remain the explored nondeterminism)
+		cur := -1
+		if s.cur != nil {
+			cur = s.cur.id
+		}
+		for _, g := range r {
+			if g.id > cur {
+				return g
+			}
+		}
+		return r[0]
+	}
 	k := s.in.ex.choose(len(r), "sched")
 	return r[k]
 }
@@ -299,6 +313,13 @@ func (in *Interp) runPath(run func()) (end pathEnd) {
 		r := recover()
 		in.sched.abortAll()
 		if pp := in.sched.pendingPanic; pp != nil {
+			if ep, ok := pp.(enginePanic); ok {
+				fmt.Fprintln(os.Stderr, ep.msg)
+				if os.Getenv("GOSYM_STACK") != "" {
+					fmt.Fprintln(os.Stderr, ep.stack)
+				}
+				os.Exit(3)
+			}
 			panic(pp)
 		}
 		switch r := r.(type) {
@@ -400,11 +421,17 @@ func (in *Interp) chanRecv(c *Chan, elemT types.Type) (Value, bool) {
 		s.block(func() bool { return false }, "receive on nil channel")
 	}
 	s.maybePreempt()
+	if c.env == "spent" {
+		s.block(func() bool { return false }, "receive on a timer that already fired")
+	}
 	if c.env != "" {
 		// environment channel: a blocking receive returns when the environment fires
 		if c.env == "done" {
 			c.envClosed = true
 			return zero(elemT), false
+		}
+		if c.env == "timer" {
+			c.env = "spent"
 		}
 		return zero(elemT), true
 	}
@@ -469,7 +496,7 @@ func (in *Interp) selectOp(instr *ssa.Select, fr *frame) Value {
 	envCands := func() []int {
 		var r []int
 		for i, x := range states {
-			if x.c != nil && x.dir == types.RecvOnly && x.c.env != "" && !x.c.envClosed {
+			if x.c != nil && x.dir == types.RecvOnly && (x.c.env == "ticker" || x.c.env == "done") && !x.c.envClosed {
 				r = append(r, i)
 			}
 		}
@@ -492,6 +519,27 @@ func (in *Interp) selectOp(instr *ssa.Select, fr *frame) Value {
 		if len(alts) == 0 {
 			if !instr.Blocking {
 				break // default
+			}
+			// one-shot timers fire when nothing else can happen (time passes while everything is idle)
+			idle := true
+			for _, o := range s.runnable() {
+				if o != s.cur {
+					idle = false
+				}
+			}
+			if idle {
+				fired := false
+				for i, x := range states {
+					if x.c != nil && x.dir == types.RecvOnly && x.c.env == "timer" && !x.c.envClosed {
+						chosen = i
+						fired = true
+						x.c.env = "spent" // one-shot
+						break
+					}
+				}
+				if fired {
+					break
+				}
 			}
 			// block until some non-env case becomes ready
 			for i := range states {
